@@ -27,6 +27,9 @@ def obligations(tier):
                   "CREATE TABLE t; [CREATE INDEX on t]; [ALTER TABLE t ADD]; then t defined again (DROP + CREATE / CREATE / CREATE IF NOT EXISTS): the statements stay with the earlier table"))
     obs.append(Ob("C04.effect/drop-exact-name", "c04", "c_drop_exact", {}, t, FN,
                   "two DROP COLUMN statements among columns whose names contain one another (id, customer_id, cust, order_id): exactly the named ones go; primary_key unchanged"))
+    obs.append(Ob("C04.effect/normalize-names-delimited-words", "pipe", "c_norm_pipe", {}, t, ["whole pipeline (harness/pipe.py) with normalize_names toggled on the shared parser object"],
+                  "12 catalogued scripts incl. ALTER DROP / ADD UNIQUE / RENAME / DEFAULT FOR / ADD / MODIFY on delimited names that spell SQL words ([type], [key], `key`, [comment], [index], [table]) "
+                  "(symbolic index): with normalize_names=True the ALTER has the same effect, names without their delimiters"))
     obs.append(Ob("C04.norun/cross_run", "c04", "c_no_cross_run", {"VF_KIND": 0, "VF_NSP": n}, t, FN,
                   "two consecutive Output.format runs: an ALTER in the second run must not find the table of the first"))
     return obs
